@@ -949,6 +949,19 @@ def glue_greenback() -> None:
             greenback._impl._greenback_shim_sync, func=elaborate_greenback_shim
         )
 
+    if hasattr(greenback._impl, "greenback_shim"):  # pragma: no branch
+
+        @elaborate_frame.register(greenback._impl.greenback_shim)
+        def elaborate_greenback_task_shim(frame: Frame, next_inner: object) -> object:
+            f_locals = frame.pyframe.f_locals
+            if "next_send" not in f_locals and "orig_coro" in f_locals:
+                # The task was given a portal (bestow_portal(), ensure_portal())
+                # but has not been stepped since: the shim is still parked at
+                # its initial yield and the task remains wherever its
+                # original coroutine is suspended.
+                return f_locals["orig_coro"]
+            return None
+
     @elaborate_frame.register(greenback.await_)
     def elaborate_greenback_await(frame: Frame, next_inner: object) -> object:
         frame.hide = True
